@@ -606,7 +606,7 @@ def run(ctx):
             if i % ctx.nshards != ctx.shard:
                 continue
             run_one(ctx, vocab, item, f'{ctx.seed}/sys/{i}', i)
-        n = ctx.pick(450, 5000)
+        n = ctx.pick(330, 5000)
         combos = [(st, fl) for st in ('shared', 'disjoint') for fl in ('experiment', 'substrate')]
         for i in range(n):
             if ctx.out_of_time():
